@@ -273,11 +273,7 @@ func (s *muxerStream) hasContent() bool {
 }
 
 func (s *muxerStream) hasPart(segmentID uint64, partID uint64) bool {
-	if segmentID == s.nextSegmentID {
-		if partID < uint64(len(s.nextSegment.(*muxerSegmentFMP4).parts)) {
-			return true
-		}
-	} else {
+	if segmentID != s.nextSegmentID {
 		for _, sop := range s.segments {
 			if seg, ok := sop.(*muxerSegmentFMP4); ok && segmentID == seg.id {
 				// If the Client requests a Part Index greater than that of the final
@@ -292,6 +288,11 @@ func (s *muxerStream) hasPart(segmentID uint64, partID uint64) bool {
 				return true
 			}
 		}
+	}
+
+	// the following Parent Segment may be the one that is being generated
+	if segmentID == s.nextSegmentID {
+		return partID < uint64(len(s.nextSegment.(*muxerSegmentFMP4).parts))
 	}
 
 	return false
